@@ -328,6 +328,16 @@ func c20JSON(c *Ctx, sc *strCase) {
 		c.Fail("toJSON:not-faithful", fmt.Sprintf("toJSON(%#v) = %s decodes to %#v", v, out, back), cas)
 		return
 	}
+	// the JSON text of v as a VALUE of its own, handed over as trusted HTML (what raw() and toJSON() return): toJSON of
+	// it is the JSON string whose content is that text -- a value like any other, encoded once more
+	for _, h := range []template.HTML{template.HTML(first), template.HTML(`{"a":"<b>&</b>"}`)} {
+		o2, err2 := encoders.ToJSON(h)
+		var s2 string
+		if err2 != nil || strings.ContainsAny(string(o2), "<>&") || json.Unmarshal([]byte(o2), &s2) != nil || s2 != string(h) {
+			c.Fail("toJSON:html-json-text", fmt.Sprintf("toJSON(template.HTML(%q)) = %s (error %v): not the JSON string of that text", string(h), o2, err2), cas)
+			return
+		}
+	}
 	// from a template
 	ctx := plush.NewContext()
 	ctx.Set("v", v)
